@@ -215,6 +215,12 @@ def run(tier, seed, t0, only=None):
                                   backend=be, timeout=12000,
                                   name=f'{be}:rabin:{shape}:moore={moore}:plus_one={plus_one}'
                                        + ('' if part is None else f':state{part}')))
+    # history: the same Automaton solved again after every variable was re-assigned to the component in place
+    for shape in (['S11'] if tier == 'quick' else ['S11', 'S11h2', 'B11a']):
+        for moore, plus_one in MODES:
+            tasks.append(dict(mod='vlib.props.c01', fn='family_region',
+                              kw=dict(shape=shape, moore=moore, plus_one=plus_one, objective='rabin', resolve=True),
+                              timeout=12000, name=f'cudd:rabin:{shape}:re-solve:moore={moore}:plus_one={plus_one}'))
     dshapes = ['B11a', 'S11', 'S11h2', 'S11g2', 'B02', 'T11b'] if tier == 'quick' else ['B11a', 'B11b', 'S11', 'S11h2', 'S11g2', 'B02', 'T11b', 'T11']
     for shape in dshapes:
         for moore, plus_one in MODES:
